@@ -30,6 +30,49 @@ CHECKS.update({
     "C07": e2("Unwinding query = every interleaving terminates within K steps (no deadlock, no livelock) for every failure pattern and max_errors; at return all threads have exited and nothing is in flight; on cyclic symbolic graphs the run raises before any call starts.", "DESIGN.md §4 C07"),
     "C10": e2("In-flight calls never exceed W; no lock held while a call runs; failure counts vs max_errors (<= k+W; ==min(k+1, failing roots) for W=1; exhaustive for None); for each concrete instance some schedule reaches min(W, width) calls in flight (else: proven loss of parallelism, replayed with a barrier on the real engine).", "DESIGN.md §4 C10"),
 })
+
+FS_NOTE = ("Trusted base: CrossHair 0.0.110 + z3, CPython; stubs: ModelFS (xh/modelfs.py: dict-backed files with inodes, io.TextIOWrapper newline/encoding semantics, "
+           "small arithmetic codecs, buffering extremes, fault index / death index on every file operation) patched into the uberjob.stores.* namespaces; every "
+           "concrete call of a harness also runs the same scenario on the REAL file system (temp dir, injected faults, os._exit in a forked child) and must agree. "
+           "Outside: kernel-level durability (POSIX rename atomicity is the stub's contract), value space of the C json/pickle serializers (CrossHair realises there).")
+CHECKS.update({
+    "C02": dict(cat="other", tech="bounded symbolic execution (CrossHair/z3) of get_argument_nodes / Plan._gather / run against a reference interpreter",
+                text="For symbolic edge-insertion orders, argument/keyword counts, nested structure shape codes (list/tuple/set/dict/subclass/opaque, depth<=2), leaf ints and unpack lengths the solver shows run returns exactly what a 15-line reference interpreter yields, with exact container types, keyword order and identity of node-free arguments.",
+                ref="DESIGN.md §4 C02", note=E1_NOTE + " Shape codes are small finite codes exhausted path by path; leaf values, sort keys and lengths are symbolic."),
+    "C09": dict(cat="other", tech="bounded symbolic execution (CrossHair/z3): physical plan of the real dry run vs declarative ordering requirements, plus a real run on normalising stores",
+                text="For every store state of each catalog shape: write call per rebuilt value, write->read path, argument consumers fed by the read node (never the call), plain dependents after the write, upstream write before downstream write, stale dependent source read after its predecessors, output redirected; consumers/outputs receive read()'s value.",
+                ref="DESIGN.md §4 C09", note=E1_NOTE + " 'Before in every schedule' is decided as 'path in the physical plan' (engine contract C01)."),
+    "C11": dict(cat="other", tech="bounded symbolic execution (CrossHair/z3) of the real store classes over a model file system with symbolic fault / death indices",
+                text="For every store class, path kind, symbolic old/new content and every fault index (raise) / death index over the file operations of a write: target holds complete old or complete new value, mtime changes only with the new value, no staging file after an exception, a left-over staging file does not disturb later writes/reads.",
+                ref="DESIGN.md §4 C11", note=FS_NOTE),
+    "C12": dict(cat="other", tech="bounded symbolic execution (CrossHair/z3) of the real store classes over a model file system (symbolic text/bytes, encodings)",
+                text="read-after-write returns an equal value of the same type for symbolic str (<=3-4 chars, any code point) x encodings and bytes, directly and through MountedStore; Json/Pickle/Touch on solver-chosen concrete values; get_modified_time None iff absent/inaccessible and non-decreasing under a constant-offset clock (zone transitions: see C18).",
+                ref="DESIGN.md §4 C12", note=FS_NOTE),
+    "C13": dict(cat="other", tech="bounded symbolic execution (CrossHair/z3) with structural snapshots and write guards on the caller's Plan / Registry",
+                text="For symbolic store states, dry_run flag, failure position, output kinds and render arguments: no mutator of the caller's graph/registry is ever called and the structural snapshot (node identities, scopes, edges with keys, registry entries) is unchanged after run / dry_run / render, on success and on failure; copies are independent.",
+                ref="DESIGN.md §4 C13", note=E1_NOTE + " Concurrent runs of one plan are argued from the write guard, not explored."),
+    "C14": dict(cat="other", tech="bounded symbolic execution (CrossHair/z3): dry run vs real run from two copies of a symbolic store state",
+                text="dry_run performs only get_modified_time on the stores and no call; executing the returned physical plan without registry yields the same calls, reads, writes, final store contents and output as the real run from the same state.",
+                ref="DESIGN.md §4 C14", note=E1_NOTE),
+    "C15": dict(cat="other", tech="bounded symbolic execution (CrossHair/z3) of the real run with a recording observer; composite observer on symbolic notification sequences",
+                text="For symbolic store states, scope values, failure index: enter first / exit once and last, totals before running, every running closed exactly once, completed == total after success, run/stale totals equal executed/examined calls per scope; composite forwards every notification to every member.",
+                ref="DESIGN.md §4 C15", note=E1_NOTE + " Pairing under real concurrency rests on process() being per-node sequential code plus the engine contract; not explored on threads."),
+    "C16": dict(cat="other", tech="bounded symbolic execution (CrossHair/z3) with a reference walk from uberjob's live frames/closures after every call boundary",
+                text="For symbolic DAGs (N<=3 quick, 4 thorough), processing orders, failing node and failure kind, edge kinds and output kinds: after every process(node) a result is reachable from what uberjob holds only if it is (part of) the output or an argument consumer has not finished.",
+                ref="DESIGN.md §4 C16", note=E1_NOTE + " Outside: actual freeing by CPython; references that live only in unreachable garbage cycles."),
+    "C18": dict(cat="other", tech="bounded symbolic execution (CrossHair/z3) of the real stale check on datetimes generated from symbolic instants, offsets and a symbolic process zone",
+                text="Stale set equals the instant-based oracle for all-naive-local values in zones without a fall-back, all-aware values in any zone, and any mix in the UTC zone; the two known finding classes (aware vs naive-local with non-zero offset; naive-local across a DST fall-back) are reported as KNOWN-FINDING.",
+                ref="DESIGN.md §4 C18", note="Trusted base: CrossHair 0.0.110 + z3, CPython; datetime model MDT validated on every concrete call against real datetime + POSIX TZ + real files. Bounds: one zone transition, |offsets| <= 14 h, jump <= 3 h, instants within 1e6 s of the transition, shapes chain2/chain3u/join/src_chain."),
+    "C19": dict(cat="other", tech="bounded symbolic execution (CrossHair/z3) of plan construction + failing runs against frame snapshots taken on the creating line",
+                text="For symbolic nesting depth (shallower/equal/deeper than the limit), every kind of symbolic call and failure phase: CallError.call is the failing call, its stack_frame chain starts at the creating line followed by the enclosing frames up to the limit then the truncation marker; the rendered message lists them outermost first.",
+                ref="DESIGN.md §4 C19", note=E1_NOTE + " Depth and kind are small codes exhausted path by path; renderer inputs (names, paths, lines) are symbolic."),
+    "C20": dict(cat="other", tech="bounded symbolic execution (CrossHair/z3) of the renderers and of the update thread under a symbolic schedule; z3 linear real arithmetic over terms computed by the real State methods",
+                text="Renderers never raise and show every scope's progress for symbolic kinds/counts; for every 2-thread schedule (12 symbolic choices) of <=3 notifications then __exit__ the last output reflects the final state; for every legal history (K<=5, 2 scopes x 2 calls) with symbolic gaps the attributed elapsed time sums to the busy time (reals).",
+                ref="DESIGN.md §4 C20", note="Trusted base: CrossHair 0.0.110 + z3, CPython; AST transformation of _run_update_thread into a generator (granularity checked on the source); Lock/Event/Thread/time stubs; floats as reals; widgets run untraced on realised counts."),
+})
+CHECKS["C17"] = e2("With one asynchronous KeyboardInterrupt transition in the coordinating thread (any step boundary while a call is in flight): no worker passes its stop test once the coordinator has begun releasing the workers, in-flight calls end, every thread exits (no deadlock: unwinding query), run raises KeyboardInterrupt.", "DESIGN.md §4 C17")
+CHECKS["C17"]["note"] = E2_NOTE + " Interrupt positions = step boundaries of the coordinator (before every shared-state operation); positions between a visible operation and the thread-local instructions fused behind it (e.g. between Thread.start() returning and workers.append) are not explored; real SIGINT delivery and a second interrupt are outside."
+
 NOT_YET = {}
 props = [json.loads(l) for l in open(os.path.join(HERE, "properties.jsonl"))]
 checks, na = [], []
@@ -57,7 +100,7 @@ m = {
               "baseline_off_cmd": "cd /repo && /venv/bin/python -m pytest -ra -q -p no:cacheprovider --timeout=900 --continue-on-collection-errors",
               "source_commits": [], "add_only": True},
     "engines": [
-        {"name": "E1-crosshair", "path": "xh/ lib/xhrun.py", "serves_properties": sorted(k for k, v in CHECKS.items() if v.get("engine", "E1-crosshair") == "E1-crosshair"),
+        {"name": "E1-crosshair", "path": "xh/ lib/xhrun.py lemmas/", "serves_properties": sorted(k for k, v in CHECKS.items() if v.get("engine", "E1-crosshair") == "E1-crosshair"),
          "kind_free_text": "CrossHair symbolic execution of the real uberjob functions (z3), conditions in parallel, vacuity twins, concrete replay"},
         {"name": "E2-bmc", "path": "conc/", "serves_properties": sorted(k for k, v in CHECKS.items() if v.get("engine") == "E2-bmc"),
          "kind_free_text": "AST of run_function_on_graph -> thread transition system -> z3 bit-vector BMC with unwinding (completeness-threshold) query; schedule replay on real threads"},
@@ -66,6 +109,7 @@ m = {
     ],
     "checks": checks,
     "not_applicable": na,
+    "known_findings_file": "known_findings.jsonl",
     "notes": "Exit protocol: 0 held / 1 + VIOLATION line (model reproduced on /repo/src) / 3 harness error (inconclusive or non-reproducing model). Known findings: known_findings.jsonl.",
 }
 json.dump(m, open(os.path.join(HERE, "MANIFEST.json"), "w"), indent=1)
